@@ -95,6 +95,8 @@ def src(e):
             body = src(b[1])
         elif b[0] == "yield":
             body = "yield " + src(b[1])
+        elif b[0] == "yieldinto":
+            body = "yield " + src(b[1]) + " into " + (b[2] if isinstance(b[2], str) else callee_src(b[2][1]))
         else:
             body = "yield " + src(b[1]) + ": " + src(b[2])
         return "(for (" + "; ".join(cl) + ") " + body + ")"
@@ -175,7 +177,10 @@ def sx(e):
             else:
                 cl.append(f"({c[0]} {c[1]} {sx(c[2])})")
         b = e[2]
-        body = f"({b[0]} " + " ".join(sx(x) for x in b[1:]) + ")"
+        if b[0] == "yieldinto":
+            body = f"(yieldinto {sx(b[1])} " + (b[2] if isinstance(b[2], str) else f"(fn {sx(b[2][1])})") + ")"
+        else:
+            body = f"({b[0]} " + " ".join(sx(x) for x in b[1:]) + ")"
         return "(for (" + " ".join(cl) + ") " + body + ")"
     if t == "break":
         return f"(break {e[1]}" + (" " + sx(e[2]) if e[2] is not None else "") + ")"
@@ -229,7 +234,12 @@ def children(e):
             k = len(c) - 1
             out.append(((1, i, k), c[k]))
         for k in range(1, len(e[2])):
-            out.append(((2, k), e[2][k]))
+            if isinstance(e[2][k], str):
+                continue
+            if e[2][k][0] == "fn":
+                out.append(((2, k, 1), e[2][k][1]))
+            else:
+                out.append(((2, k), e[2][k]))
     elif t == "break":
         if e[2] is not None:
             out.append(((2,), e[2]))
@@ -282,6 +292,9 @@ def features(e, acc=None):
         for c in e[1]:
             acc["cl_" + c[0]] = acc.get("cl_" + c[0], 0) + 1
         acc["for_" + e[2][0]] = acc.get("for_" + e[2][0], 0) + 1
+        if e[2][0] == "yieldinto":
+            k = "into_" + (e[2][2] if isinstance(e[2][2], str) else "fn")
+            acc[k] = acc.get(k, 0) + 1
     if e[0] == "break" and e[1] > 0:
         acc["break_multi"] = acc.get("break_multi", 0) + 1
     if e[0] == "lam":
@@ -631,8 +644,15 @@ class Gen:
         yielding = r.random() < 0.5 if yielding is None else yielding
         if yielding:
             c = r.random()
-            if c < 0.12:
+            if c < 0.10:
                 body = ("yieldkv", self.expr("i", d + 1), self.expr("i", d + 1))
+            elif c < 0.24:
+                rd = r.choice(["first", "last", "count", "sum", "len", "fn", "fn"])
+                if rd == "fn":
+                    fe = self.leaf("f") if r.random() < 0.4 else ("lam", [("p", "l")], r.choice([P("len", V("l")), V("l"), P("append", V("l"), I(0)), ("list", [V("l"), V("l")])]))
+                    rd = ("fn", fe)
+                val = self.loop_body(d + 1, value=True) if r.random() < 0.5 else self.expr("i", d + 1)
+                body = ("yieldinto", val, rd)
             elif c < 0.45:
                 body = ("yield", self.lam(d + 1)[0])                # per-iteration closures
             elif c < 0.7:
@@ -1100,7 +1120,7 @@ def tuplify(x):
     if isinstance(x, list):
         if x and isinstance(x[0], str) and x[0] in ("null", "int", "str", "list", "var", "seq", "decl", "asg", "decll", "asgl", "if", "while",
                                                      "for", "break", "cont", "ret", "try", "throw", "and", "or", "coal", "lam", "call", "prim",
-                                                     "eval", "splat", "it", "item", "let", "guard", "do", "yield", "yieldkv", "p", "def", "switch", "lit", "bind", "wild"):
+                                                     "eval", "splat", "it", "item", "let", "guard", "do", "yield", "yieldkv", "p", "def", "switch", "lit", "bind", "wild", "yieldinto", "fn"):
             return tuple(tuplify(y) for y in x)
         return [tuplify(y) for y in x]
     return x
